@@ -52,6 +52,7 @@ fn route_one<const N: usize>(which: u8, faults: bool) {
         while s < N {
             let st = sink(s);
             assert!(st.calls_after_death == 0, "a failed peer is never used again");
+            assert!(!st.sent_without_ready, "no sink is handed a frame unless it answered poll_ready = Ready");
             if Some(s) == dest && !st.dead {
                 assert!(st.started == 1, "the reply reaches the requestor named by cid exactly once");
                 let seen = flog(s, 0);
@@ -76,12 +77,12 @@ fn route_one<const N: usize>(which: u8, faults: bool) {
     core::mem::forget(r);
 }
 
-proof!(s_router_n2_none, 12, { route_one::<2>(0, false) });
-proof!(s_router_n2_empty, 12, { route_one::<2>(1, false) });
-proof!(s_router_n2_cid0, 12, { route_one::<2>(2, false) });
-proof!(s_router_n2_cid1, 12, { route_one::<2>(3, false) });
-proof!(s_router_n2_cid7, 12, { route_one::<2>(4, false) });
-proof!(s_router_n2_cidx, 12, { route_one::<2>(5, false) });
-proof!(s_router_n2_cid1_reqid, 12, { route_one::<2>(6, false) });
-proof!(s_router_n2_reqid_only, 12, { route_one::<2>(7, false) });
-proof!(s_router_faults_n2_cid1, 12, { route_one::<2>(3, true) });
+proof!(s_router_n2_none, 4, { route_one::<2>(0, false) });
+proof!(s_router_n2_empty, 4, { route_one::<2>(1, false) });
+proof!(s_router_n2_cid0, 4, { route_one::<2>(2, false) });
+proof!(s_router_n2_cid1, 4, { route_one::<2>(3, false) });
+proof!(s_router_n2_cid7, 4, { route_one::<2>(4, false) });
+proof!(s_router_n2_cidx, 4, { route_one::<2>(5, false) });
+proof!(s_router_n2_cid1_reqid, 4, { route_one::<2>(6, false) });
+proof!(s_router_n2_reqid_only, 4, { route_one::<2>(7, false) });
+proof!(s_router_faults_n2_cid1, 4, { route_one::<2>(3, true) });
